@@ -671,7 +671,6 @@ pub enum Role {
 }
 
 /// Authenticate a (prepared) password in one role and return the file encryption key.
-/// For revisions 5-6 the Perms entry is validated too (Algorithm 2.A step f).
 pub fn derive(enc: &EncDict, id0: &[u8], pw: &[u8], role: Role) -> Result<Vec<u8>, String> {
     derive_opt(enc, id0, pw, role, true)
 }
@@ -692,7 +691,8 @@ pub fn derive_opt(enc: &EncDict, id0: &[u8], pw: &[u8], role: Role, truncate127:
             Role::User => alg2a_user(enc, &p).ok_or_else(|| "user password not accepted (Algorithm 11)".to_string())?,
             Role::Owner => alg2a_owner(enc, &p).ok_or_else(|| "owner password not accepted (Algorithm 12)".to_string())?,
         };
-        alg13(enc, &key)?;
+        // Algorithm 2.A step (f) / Algorithm 13 (Perms) is evaluated by the callers as a field of its
+        // own, so that a bad Perms entry is reported once and not as a failure to open the document.
         Ok(key)
     }
 }
@@ -1127,6 +1127,9 @@ pub fn selftest() -> Result<u64, String> {
             // an absent owner password means the user password opens the document as owner (R<=4)
             let owner_string = if op.is_empty() && r <= 4 { up } else { op };
             let ko = derive(&enc, &id0, owner_string, Role::Owner)?;
+            if r >= 5 {
+                alg13(&enc, &key)?;
+            }
             if ku != key || ko != key {
                 return Err(format!("self-test V{} R{}: keys differ", v, r));
             }
